@@ -142,6 +142,25 @@ def make_state(rng, seq, rig, u):
                 regs[2], regs[3] = bc >> 8, bc & 0xFF
         if b[1] in (0xA1, 0xA9, 0xB1, 0xB9) and rng.random() < 0.5:
             patches[(regs[6] * 256 + regs[7]) & 0xFFFF] = regs[0]          # the compare finds A at (HL)
+    if rig.is128 and (b[0] == 0xD3 or (b[0] == 0xED and b[1] in (0x79, 0x41, 0x49, 0xA3, 0xAB, 0xB3, 0xBB))) and rng.random() < 0.6:
+        # an OUT that pages (port decoded on A15=0, A1=0) while it executes from the paged area: the instruction's own
+        # cycles are contended as the bank that was in place when they happened, odd to even and even to odd
+        bank = rng.choice([0, 1, 2, 3, 4, 5, 6, 7, 0x10, 0x11, 0x16, 0x17, 0x08, 0x0B])
+        if rng.random() < 0.75:
+            addr = rng.choice([0xC000, 0xC001, 0xFFF0, 0xD000, 0xFFFD])
+            regs[24] = addr
+        if b[0] == 0xD3:
+            b[1] = rng.choice([0xFD, 0xFD, 0xFC, 0xF9, 0x7D, 0x01, 0x00])
+            regs[0] = bank                                   # port = A*256 + n: A15 clear
+        else:
+            regs[2], regs[3] = (0x80 if b[1] & 0x80 else rng.choice([0x7F, 0x3F, 0x00])), rng.choice([0xFD, 0xFD, 0xFC, 0x7D])   # the block forms decrement B first
+            regs[0] = bank
+            if b[1] == 0x41:
+                regs[2] = rng.choice([0x7F, 0x3F])          # OUT (C),B writes B itself
+            elif b[1] == 0x49:
+                regs[3] = rng.choice([0xFD, 0x05, 0x11])    # OUT (C),C writes C
+            elif b[1] & 0x80:
+                patches[(regs[6] * 256 + regs[7]) & 0xFFFF] = bank
     for i, x in enumerate(b):
         patches[(addr + i) & 0xFFFF] = x
     return addr, b, regs, patches
